@@ -189,6 +189,6 @@ def stages(tier):
             EnumStage("triples", triple_cases, shards=6, scope="every ordered triple of 14 field kinds x {packed, aligned} (5488 definitions) x full input, all cut points, one raw input"),
         ]
     return [
-        HypStage("diff", diff_case, examples=5000, shards=16),
+        HypStage("diff", diff_case, examples=2000, shards=16),
         EnumStage("triples", triple_cases, shards=8, scope="every ordered triple of 14 field kinds x {packed, aligned} (5488 definitions) x full input, all cut points, one raw input"),
     ]
